@@ -33,7 +33,7 @@ META = {
     "rule": "case = one schedule (scope kind, worker programs, decisions); non-trivial = >=1 preemption and >=1 remove(); distinct by (kind, programs, switch trace digest)",
     "shards": {"quick": 8, "thorough": 16},
     "soft_s": {"quick": 45, "thorough": 600},
-    "require": ["schedules", "preemptions", "line_events", "registry_calls", "removes", "closes_observed", "shared_scope_races", "generation_runs", "thread_idents_reused"],
+    "require": ["schedules", "preemptions", "line_events", "registry_calls", "removes", "closes_observed", "kwargs_first_calls", "shared_scope_races", "generation_runs", "thread_idents_reused"],
     "assumptions": ["threading.local gives per-thread storage"],
 }
 
@@ -147,6 +147,35 @@ def run_schedule(ctx, orm, exc, sched_mod, kind, progs, rng, forced=None):
                         g["calls"] += 1
                     else:
                         current.pop(sc, None)
+                elif op == "kwcall":
+                    # registry(**kw) as the FIRST call of a scope creates a Session configured
+                    # with kw and makes it the scope's Session; with one present it raises
+                    b = snap(name)
+                    if kind == "shared":
+                        begin_remove(sc)
+                        try:
+                            keep.append(reg(autoflush=False))
+                        except exc.InvalidRequestError:
+                            pass
+                        finally:
+                            end_remove(sc)
+                    elif current.get(sc) is None:
+                        sess = reg(autoflush=False)
+                        g["kwfirst"] = g.get("kwfirst", 0) + 1
+                        if sess.autoflush is not False:
+                            ctx.violation("kwargs-not-applied", f"{name}: registry(autoflush=False) returned a Session with autoflush={sess.autoflush!r} (kind={kind})", desc())
+                        observe(name, sess, "kwcall", b)
+                        observe(name, reg(), "call", snap(name))
+                        if not reg.registry.has():
+                            ctx.violation("kwargs-session-not-registered", f"{name}: registry.has() is False after registry(**kw) (kind={kind})", desc())
+                    else:
+                        try:
+                            keep.append(reg(autoflush=False))
+                            ctx.violation("kwargs-with-existing-session-did-not-raise",
+                                          f"{name}: registry(**kw) with a Session present did not raise (kind={kind})", desc())
+                        except exc.InvalidRequestError:
+                            pass
+                        observe(name, reg(), "call", snap(name))
                 elif op == "configure":
                     b = snap(name)
                     observe(name, reg(), "call", b)
@@ -175,6 +204,7 @@ def run_schedule(ctx, orm, exc, sched_mod, kind, progs, rng, forced=None):
     ctx.count("line_events", s.line_events)
     ctx.count("registry_calls", g["calls"])
     ctx.count("removes", g["removes"])
+    ctx.count("kwargs_first_calls", g.get("kwfirst", 0))
     ctx.count("closes_observed", len(closes))
     if kind == "shared":
         ctx.count("shared_scope_races")
@@ -246,7 +276,7 @@ def run_generations(ctx, orm, sched_mod, rng, kind):
 
 
 def gen_prog(rng, n):
-    return [rng.choice(["call", "call", "proxy", "remove", "remove", "configure"]) for _ in range(n)]
+    return [rng.choice(["call", "call", "proxy", "remove", "remove", "configure", "kwcall", "kwcall"]) for _ in range(n)]
 
 
 def run(ctx):
